@@ -93,7 +93,10 @@ impl RTy {
                 if ts.len() == 1 {
                     format!("({},)", ts[0].render())
                 } else {
-                    format!("({})", ts.iter().map(|t| t.render()).collect::<Vec<_>>().join(", "))
+                    // every third tuple of two or more elements is written with a trailing comma (what rustfmt produces
+                    // when a tuple type spans several lines): the same type
+                    let inner = ts.iter().map(|t| t.render()).collect::<Vec<_>>().join(", ");
+                    if ts.len() >= 2 && inner.len() % 3 == 0 { format!("({},)", inner) } else { format!("({})", inner) }
                 }
             }
         }
